@@ -261,7 +261,7 @@ pub fn small_histories(k: usize, max_blocks: usize, rich: bool) -> Vec<Case> {
 /// implementations that treat large sets differently (chunking, parallel aggregation)
 pub fn large_cases() -> Vec<Case> {
     let mut v = Vec::new();
-    for (coin, n) in [(Coin::Bitcoin, 70_000usize), (Coin::Litecoin, 131_500usize)] {
+    for (coin, n) in [(Coin::Bitcoin, 70_000usize), (Coin::Litecoin, 131_500usize), (Coin::Namecoin, 310_000usize)] {
         let scripts: Vec<Vec<u8>> = (0..n).map(|i| pool_script(coin, (i % 7) as u8, ((i / 7) % 5) as u8)).collect();
         let values: Vec<u64> = (0..97u64).map(|k| 1 + k * k * 1000).collect();
         let chain = vpmodel::spec::chain_from_scripts(coin, &scripts, &values, 250, 40, 0, 1_400_000_000);
